@@ -32,9 +32,16 @@ C14_OnlyRequiredTags(sd) ==
     /\ (sd.form # "none" => sd.k = "required")
     /\ \A i \in 1..Len(sd.ch) : C14_OnlyRequiredTags(sd.ch[i][2])
 
+\* ... a document whose ROOT mapping is tagged !del (a profile that throws the previous tree away) starts the fold afresh
+C14_RootDel(sd) == sd.k = "dict" /\ sd.form = "tag" /\ sd.del = "T" /\ sd.pr = 9 /\ sd.anew = "N" /\ sd.safe = "N"
+C14_Untagged(sd) == [sd EXCEPT !.form = "none", !.del = "N"]
+C14_DocOk(sd) == C14_OnlyRequiredTags(IF C14_RootDel(sd) THEN C14_Untagged(sd) ELSE sd)
 C14_Survivors(docs, acc) ==
-    ((\A j \in 1..Len(docs) : C14_OnlyRequiredTags(docs[j])) /\ ~IsErr(acc)) =>
-        LET want == C02_Fold([i \in 1..Len(docs) |-> Erase(docs[i])])
+    ((\A j \in 1..Len(docs) : C14_DocOk(docs[j])) /\ ~IsErr(acc)) =>
+        LET resets == {j \in 2..Len(docs) : C14_RootDel(docs[j])}
+            from   == IF resets = {} THEN 1 ELSE CHOOSE j \in resets : \A x \in resets : x <= j
+            want   == C02_Fold([i \in 1..(Len(docs) - from + 1) |->
+                                 Erase(IF C14_RootDel(docs[from + i - 1]) THEN C14_Untagged(docs[from + i - 1]) ELSE docs[from + i - 1])])
         IN ~C02_IsError(want) /\ C14_ReqPaths(acc) = C14_PlainReq(want, <<>>)
 
 ----------------------------------------------------------------------------
@@ -61,12 +68,15 @@ C14_T2 == C14_L2 \cup (MapsOver(<<C14_KA, C14_KB, IKey(0)>>, C14_L2) \ {SD("dict
 C14_Later == {SD("dict", NoVal, <<<<C14_KA, c>>>>) : c \in C14_T2} \cup
              {SD("dict", NoVal, <<<<C14_KA, SD("dict", NoVal, <<<<C14_KB, c>>>>)>>>>) : c \in C14_T2} \cup
              {SD("dict", NoVal, <<<<C14_KB, x>>>>) : x \in C14_L2}
-C14_Docs  == SetToSeq(C14_First) \o SetToSeq(C14_Later)
-C14_Range == << <<1, Cardinality(C14_First)>>, <<Cardinality(C14_First) + 1, Cardinality(C14_First) + Cardinality(C14_Later)>> >>
+C14_Reset == {WithTag(d, "del") : d \in {SD("dict", NoVal, <<<<C14_KA, C14_Req>>>>), SD("dict", NoVal, <<<<C14_KB, C14_Req>>>>),
+                                          SD("dict", NoVal, <<<<C14_KA, SD("dict", NoVal, <<<<C14_KB, C14_Req>>>>)>>>>),
+                                          SD("dict", NoVal, <<<<C14_KA, C14_L("2")>>>>), SD("dict", NoVal, <<>>)}}
+C14_Docs  == SetToSeq(C14_First) \o SetToSeq(C14_Later \cup C14_Reset)
+C14_Range == << <<1, Cardinality(C14_First)>>, <<Cardinality(C14_First) + 1, Cardinality(C14_First) + Cardinality(C14_Later \cup C14_Reset)>> >>
 \* 3 stages over a narrower set
 C14_FirstS == {SD("dict", NoVal, <<<<C14_KA, c>>>>) : c \in C14_T1}
 C14_LaterS == {SD("dict", NoVal, <<<<C14_KA, c>>>>) : c \in C14_L2 \cup (MapsOver(<<C14_KA, IKey(0)>>, C14_L2) \ {SD("dict", NoVal, <<>>)})}
-C14_Docs3  == SetToSeq(C14_FirstS) \o SetToSeq(C14_LaterS)
-C14_Range3 == << <<1, Cardinality(C14_FirstS)>>, <<Cardinality(C14_FirstS) + 1, Cardinality(C14_FirstS) + Cardinality(C14_LaterS)>> >>
+C14_Docs3  == SetToSeq(C14_FirstS) \o SetToSeq(C14_LaterS \cup C14_Reset)
+C14_Range3 == << <<1, Cardinality(C14_FirstS)>>, <<Cardinality(C14_FirstS) + 1, Cardinality(C14_FirstS) + Cardinality(C14_LaterS \cup C14_Reset)>> >>
 
 =============================================================================
